@@ -210,6 +210,9 @@ impl<const N: usize> AEADCipherCodec<N> {
         if matches!(session.mode, Mode::Client) {
             header.copy_to_slice(session.identity.request_salt.as_mut().unwrap());
             trace!("[tcp] get request header salt {}", Base64::encode_string(session.identity.request_salt.as_ref().unwrap()));
+            if session.identity.request_salt != Some(session.identity.salt) {
+                bail!("response is not bound to this request: it echoes another request salt");
+            }
         };
         let length = header.get_u16() as usize;
         if _src.remaining() >= length + tag_size {
